@@ -22,6 +22,7 @@ import (
 	"strings"
 	"time"
 
+	"fortio.org/log"
 	"grol.io/grol/extensions"
 	"grol.io/grol/object"
 	"verifharness/common"
@@ -225,6 +226,10 @@ var preludeC10 = []input{
 	{src: `func spin(){for true {}}; func pr(a){vprobe(); println(a)}`, skel: "(S)"},
 	{src: `func fact(n){if n<=1 {return 1}; n*fact(n-1)}; cnt=0`, skel: "(S)"},
 	{src: `down = func(n){println("at",n); self(n+1)}; hello = func(who){println("hello",who); len(who)}; ppan = func(n){println("pp",n); if n>=2 {vpanic()}; ppan(n+1)}; hello("a")`, skel: "(S (C 0 (S)))"},
+	// the function cache made observable: a memoized function that log()s (a remembered call does not log again), and a
+	// remembered result over a helper redefined afterwards
+	{src: `lf = func(n){log("computing", n); n*2}; hp = func(){2}; mf = func(n){hp()+n}; println(lf(3), mf(1))`, skel: "(S)"},
+	{src: `hp = func(){5}; lf(3)`, skel: "(S)"},
 	{src: `func stray(){break}; func strayc(){continue}; func sn(n){if n<=0 {break}; sn(n-1)}; func en(n){if n<=0 {error("deep err")}; en(n-1)+0}`, skel: "(S)"},
 }
 
@@ -313,10 +318,11 @@ func regProbe(d int) (src, loops string) {
 	return body + "; " + names[d-1], sk
 }
 
-var probeCache = map[bool][]input{}
+var probeCache = map[[2]bool][]input{}
 
 func budgetProbes(c *Ctx, noReg bool) []input {
-	if p, ok := probeCache[noReg]; ok {
+	key := [2]bool{noReg, blankSession}
+	if p, ok := probeCache[key]; ok {
 		return p
 	}
 	var ps []input
@@ -329,7 +335,11 @@ func budgetProbes(c *Ctx, noReg bool) []input {
 	}
 	// calibration on a fresh state: each probe alone after the prelude
 	for i := range ps {
-		h := append(append([]input{}, preludeC10...), ps[i])
+		var h []input
+		if !blankSession {
+			h = append(h, preludeC10...)
+		}
+		h = append(h, ps[i])
 		o := runHistory(c, noReg, h)[len(h)-1]
 		_, loops := regProbe(1)
 		if ps[i].probe == "registers" {
@@ -346,7 +356,7 @@ func budgetProbes(c *Ctx, noReg bool) []input {
 			ps[i].skel = "(S " + loops + ")"
 		}
 	}
-	probeCache[noReg] = ps
+	probeCache[key] = ps
 	return ps
 }
 
@@ -405,8 +415,15 @@ func (g *hgen) next() input {
 	}
 }
 
+// true while the blank-session family runs: histories are evaluated on eval.NewBlankState()
+var blankSession bool
+
 func runHistory(c *Ctx, noReg bool, h []input) []SessObs {
 	x := NewSess(noReg, maxDepthC10)
+	if blankSession {
+		x = NewBlankSess(noReg, maxDepthC10)
+	}
+	x.S.NoLog = true // log() prints to LogOut (the session buffer): a remembered call must not log again
 	var obs []SessObs
 	for _, in := range h {
 		x.S.MaxDepth = maxDepthC10
@@ -428,7 +445,11 @@ func encodeHist(noReg bool, h []input) string {
 		}
 		parts = append(parts, fmt.Sprintf("%s%d/%d:%s", tag, in.maxMs/time.Millisecond, in.depth, Hx([]byte(in.src))))
 	}
-	return "H " + b01(noReg) + " " + strings.Join(parts, ",")
+	mode := b01(noReg)
+	if blankSession {
+		mode += "b"
+	}
+	return "H " + mode + " " + strings.Join(parts, ",")
 }
 
 func decodeHist(cs string) (bool, []input) {
@@ -448,7 +469,8 @@ func decodeHist(cs string) (bool, []input) {
 		}
 		h = append(h, in)
 	}
-	return f[1] == "1", h
+	blankSession = strings.HasSuffix(f[1], "b")
+	return strings.HasPrefix(f[1], "1"), h
 }
 
 func b01(b bool) string {
@@ -664,6 +686,8 @@ func runC10(c *Ctx) {
 		}
 	}
 	// failures through catch()/memoized functions and inside macro bodies, then probes on every layer of the State
+	NewSess(false, 0)                 // initialises the harness extensions and the log settings
+	log.SetLogLevelQuiet(log.Warning) // log() is skipped at Error and above; the logger's own output stays discarded
 	initLayerProbes()
 	nFam := 2
 	if c.Thorough() {
@@ -707,6 +731,56 @@ func runC10(c *Ctx) {
 			}
 		}
 	}
+	// sessions on eval.NewBlankState() (no extensions, no pre-seeded identifiers), persistent across inputs
+	blankPrelude := []input{
+		{src: `func deep(n){deep(n+1)}; x = 42; cnt = 0; func fact(n){if n<=1 {return 1}; n*fact(n-1)}`, skel: "(S)"},
+		{src: `func boom(n){for i=0:n{if i==1{error("boom")}}}; func spin(){for true {}}; func stray(){break}; hello = func(who){println("hello",who); len(who)}`, skel: "(S)"},
+		{src: `lf = func(n){log("computing", n); n*2}; hp = func(){2}; mf = func(n){hp()+n}; println(lf(3), mf(1))`, skel: "(S)"},
+		{src: `hp = func(){5}; lf(3)`, skel: "(S)"},
+	}
+	blankFailing := []input{
+		{src: `deep(0)`, skel: "(S (C 1 d))", fail: "blank-session-depth-overflow"},
+		{src: `for a=0:2{for b=0:2{deep(a)}}`, skel: "(S (L 11 (S (L 11 (S (C 1 d))))))", fail: "blank-session-depth-overflow-in-loops"},
+		{src: `x + deep(1)`, skel: "(S (C 1 d))", fail: "blank-session-depth-overflow-in-expression"},
+		{src: `for a=0:3{boom(2)}`, skel: "(S (L 11 (S (C 1 (S (L 11 (S) (S e)))))))", fail: "blank-session-error-in-function-in-loop"},
+		{src: `1+nosuchvar`, skel: "(S e)", fail: "blank-session-error"},
+		{src: `stray()`, skel: "(S (C 0 (S b)))", fail: "blank-session-stray-break"},
+		{src: `1 +* 2`, skel: "(S e)", fail: "blank-session-parse-error"},
+		{src: `spin()`, skel: "(S (C 0 (S e)))", fail: "blank-session-deadline", maxMs: 4 * time.Millisecond},
+		{src: `[0]*(1<<62)`, skel: "(S p)", fail: "blank-session-memory-guard", neutral: true},
+	}
+	blankTail := []input{
+		{src: `println("x is", x); x = x + 1`, skel: "(S)"},
+		{src: `println(fact(5), hello("z")); for i=0:3 {cnt = cnt + i}; cnt`, skel: "(S (C 1 (S (C 1 (S (C 1 (S (C 1 (S (C 1 (S r)))))))))) (C 0 (S)) (L 11 (S) (S) (S)))"},
+		{src: `y = x * 2; func later(a){a + y}; later(1)`, skel: "(S (C 1 (S)))"},
+		{src: `println(lf(3), mf(1), lf(4))`, skel: "(S)"},
+	}
+	nBlank := 2
+	if c.Thorough() {
+		nBlank = 30
+	}
+	blankSession = true
+	for i := 0; i < nBlank; i++ {
+		for fi, f := range blankFailing {
+			for m := 1; m <= 3; m++ {
+				base := append([]input{}, blankPrelude...)
+				h := append([]input{}, base...)
+				mid := []input{{src: fmt.Sprintf(`println("mid", %d, x)`, c.R.Intn(99)), skel: "(S)"}, {src: `cnt = cnt + 1; cnt`, skel: "(S)"}}
+				pos := c.R.Intn(3)
+				base, h = append(base, mid[:pos%len(mid)]...), append(h, mid[:pos%len(mid)]...)
+				for k := 0; k < m; k++ {
+					h = append(h, f)
+				}
+				noReg := (i+fi)%4 == 3
+				tail := append(append([]input{}, blankTail...), budgetProbes(c, noReg)...)
+				base, h = append(base, tail...), append(h, tail...)
+				// the skeleton of the tail's recursion is approximate under memoization: no model line when it repeats
+				checkHistory(c, noReg, h, runHistory(c, noReg, base), false)
+				c.Count("blank-session=" + f.fail)
+			}
+		}
+	}
+	blankSession = false
 	// failures inside files evaluated by load(), then loading the same and other files again, and save()
 	nLoad := 3
 	if c.Thorough() {
@@ -745,7 +819,7 @@ func runC10(c *Ctx) {
 		}
 		// the base always ends with inputs that show the accumulated state
 		base = append(base, input{src: `cnt = cnt + 1; println(cnt)`, skel: "(S)"}, input{src: `pr(77)`, skel: "(S (C 1 (S P)))"},
-			input{src: `hello("bc")`, skel: "(S (C 0 (S)))"}, input{src: `for i=0:2{hello("bc"); hello("d")}`, skel: "(S (L 11 (S (C 0 (S)) (C 0 (S))) (S (C 0 (S)) (C 0 (S)))))"})
+			input{src: `hello("bc")`, skel: "(S (C 0 (S)))"}, input{src: `println(lf(3), mf(1), lf(4))`, skel: "(S)"}, input{src: `for i=0:2{hello("bc"); hello("d")}`, skel: "(S (L 11 (S (C 0 (S)) (C 0 (S))) (S (C 0 (S)) (C 0 (S)))))"})
 		noReg := b%5 == 4
 		lastPos := len(base) // failing inputs go anywhere before the budget probes
 		base = append(base, budgetProbes(c, noReg)...)
@@ -789,7 +863,7 @@ func runC10(c *Ctx) {
 		for c.R.Pct(30) {
 			h = append(h, failing[c.R.Intn(len(failing))])
 		}
-		tail := []input{{src: `cnt = cnt + 1; println(cnt)`, skel: "(S)"}, {src: `pr(78)`, skel: "(S (C 1 (S P)))"}, {src: `hello("bcd")`, skel: "(S (C 0 (S)))"}}
+		tail := []input{{src: `cnt = cnt + 1; println(cnt)`, skel: "(S)"}, {src: `pr(78)`, skel: "(S (C 1 (S P)))"}, {src: `hello("bcd")`, skel: "(S (C 0 (S)))"}, {src: `println(lf(3), mf(1), lf(4))`, skel: "(S)"}}
 		noReg := c.R.Pct(25)
 		tail = append(tail, budgetProbes(c, noReg)...)
 		base = append(base, tail...)
